@@ -3,10 +3,24 @@ import itertools
 
 ID = "C10"
 HARNESSES = [dict(name="ha", pkg="./pkg/ha/", test="TestVerifC10", timeout=900,
+                  files=[("pkg/ha/zz_verif_c10_test.go", "harness/C10/zz_verif_c10_test.go")]),
+             # forced-overlap cases (two goroutines inside one Manager) and a slice of the ordinary ones: -race
+             dict(name="ha_race", pkg="./pkg/ha/", test="TestVerifC10", timeout=900, race=True,
                   files=[("pkg/ha/zz_verif_c10_test.go", "harness/C10/zz_verif_c10_test.go")])]
-# repaired first (full theorems), then every combination of the three recorded defects ("defective" = all
-# three = /repo today), so that a tree with only some of the fix patches applied is still recognised
-VARIANTS = ["repaired", "def_hb", "def_if", "def_fc", "def_hb_if", "def_hb_fc", "def_if_fc", "defective"]
+
+
+def route(case):
+    t = case.split(" ")
+    if any(o[:2] in ("pD", "pL", "pS") for o in t[10:]) or (len(case) % 16 == 0 and len(t) < 80):
+        return "ha_race"
+    return "ha"
+
+# repaired = all five repairs (the theorems with fix_* hypotheses hold for it).  /repo HEAD has the first three
+# (hb, if, fc: `fixed:` in KNOWN_FINDINGS.txt, so their defective variants are NOT listed: a regression is a
+# VIOLATION).  def_sa = HEAD: a heartbeat handled between the two critical sections of handlePeerLost leaves
+# STANDBY_ALONE with a known peer, which no heartbeat leaves again (recorded finding).  fix_ia cannot be observed
+# by any forceable schedule, so def_ia is not a separate variant.
+VARIANTS = ["repaired", "def_sa"]
 MODEL_NEEDS_IMPL = False
 
 RULE = ("case = configuration of both nodes (node-id order, priority, preempt, decrement, #tracked interfaces) + "
@@ -29,8 +43,48 @@ ASSUMPTIONS = ["node ids are distinct and non-empty",
 W = "01"
 
 
+def enc_id(x):
+    """node id token: int n -> "node-%05d" (rendered by harness and driver), str -> s:<dotted bytes>"""
+    if isinstance(x, int):
+        return str(x)
+    b = x.encode("utf-8")
+    return "s:" + (".".join(str(c) for c in b) if b else "e")
+
+
 def cfg(ida, pa, ra, da, na, idb, pb, rb, db, nb):
-    return "%d %d %d %d %d %d %d %d %d %d" % (ida, pa, ra, da, na, idb, pb, rb, db, nb)
+    return "%s %d %d %d %d %s %d %d %d %d" % (enc_id(ida), pa, ra, da, na, enc_id(idb), pb, rb, db, nb)
+
+
+# ids whose order as Go strings differs from the numeric / natural one, shared prefixes, case, equal, empty
+STR_IDS = [("9", "10"), ("10", "9"), ("node-2", "node-10"), ("node-10", "node-2"), ("a", "B"), ("B", "a"),
+           ("bng", "bng-1"), ("bng-1", "bng"), ("x", "x"), ("", "n1"), ("n1", ""), ("", ""), ("\u00e9", "z"),
+           ("bng-9", "bng-10")]
+
+
+def overlap_cases(rng, quick):
+    """one Manager call parked at a lock boundary while whole calls run on the same node"""
+    out = []
+    confs = [cfg(1, 200, 0, 50, 2, 2, 100, 0, 50, 2), cfg(2, 100, 1, 50, 2, 1, 200, 0, 50, 2),
+             cfg(1, 100, 0, 0, 0, 2, 100, 1, 0, 0), cfg("9", 100, 1, 50, 1, "10", 100, 0, 50, 1)]
+    warms = [warm(1), warm(2), warm(3), ["st0", "st1"], warm(1) + ["pl0"], warm(1) + ["pl1", "sw1:1"],
+             warm(1) + ["dn0:0", "dn1:0"]]
+    settle = ["sd0", "dl1:9", "dl0:9", "sd1", "dl0:9", "dl1:9", "sd0", "dl1:9", "dl0:9"]
+    for c in confs:
+        for wm in warms:
+            for w in W:
+                o = "1" if w == "0" else "0"
+                mids = [[], ["pl" + w], ["sw%s:1" % w], ["sw%s:0" % w], ["rs" + w], ["dn%s:0" % w], ["up%s:0" % w],
+                        ["sd" + o, "dl%s:9" % w], ["sd" + o, "dl%s:9" % w, "pl" + w], ["pl" + w, "sd" + o, "dl%s:9" % w],
+                        ["dn%s:0" % w, "pl" + w], ["sd" + o, "sd" + o, "dl%s:0" % w, "dl%s:0" % w]]
+                if quick:
+                    mids = [m for m in mids if rng.random() < 0.5]
+                for mid in mids:
+                    # heartbeat handler parked after PeerDiscovered
+                    out.append(c + " " + " ".join(wm + ["sd" + o, "pD%s:9" % w] + mid + ["rl" + w] + settle))
+                    # handlePeerLost parked before / after sm.PeerLost
+                    out.append(c + " " + " ".join(wm + ["sd" + o, "pL" + w] + mid + ["rl" + w] + settle))
+                    out.append(c + " " + " ".join(wm + ["sd" + o, "pS" + w] + mid + ["rl" + w] + settle))
+    return out
 
 
 def warm(kind):
@@ -114,9 +168,19 @@ def gen_cases(rng, tier, budget):
         pa, pb = rng.choice([(100, 200), (200, 100), (100, 100), (150, 100), (0, 0), (1, 0), (255, 254)])
         dec = rng.choice([0, 50, 50, 100, 300, 1])
         na, nb = rng.randint(0, 3), rng.randint(0, 3)
-        ida, idb = rng.choice([(1, 2), (2, 1), (10, 9), (99999, 1)])
+        ida, idb = rng.choice([(1, 2), (2, 1), (10, 9), (99999, 1), ("9", "10"), ("node-10", "node-2"), ("B", "a")])
         c = cfg(ida, pa, rng.randint(0, 1), dec, na, idb, pb, rng.randint(0, 1), rng.choice([dec, 0, 50]), nb)
         cases.append(c + " " + " ".join(random_walk(rng, max(na, nb), rng.randint(40, 200))))
+    # (4) node ids as arbitrary strings (Go compares them bytewise), equal priorities so that the id decides
+    for ida, idb in STR_IDS:
+        for ra, rb in ((0, 0), (1, 0), (1, 1)):
+            c = cfg(ida, 100, ra, 50, 1, idb, 100, rb, 50, 1)
+            for k in (1, 2, 3):
+                cases.append(c + " " + " ".join(warm(k) + ["sd0", "dl1:9", "dl0:9", "sd1", "dl0:9", "dl1:9", "pl0", "pl1",
+                                                        "sd1", "dl0:9", "dl1:9", "sd0", "dl1:9", "dl0:9"]))
+            cases.append(c + " " + " ".join(random_walk(rng, 1, 60)))
+    # (5) forced overlaps
+    cases += overlap_cases(rng, quick)
     # (3) boundary configurations
     big = [2147483647, 2147483648, 4294967295, 4294967295 - 49]
     for p in big:
@@ -176,25 +240,19 @@ def classify(case, impl, model):
                  % (i, op, xi, yi))
 
 
-SIG = {"hb": "dual-standby-no-promotion", "if": "ifdown-notification-count", "fc": "dual-active-second-heartbeat"}
-
-
 def signature(case, impl, models):
-    """vlib calls this only when the whole implementation line equals one non-repaired variant, i.e. the history
-    is fully explained by the recorded defects.  The signature names the defect behind the FIRST divergence from
-    the repaired model (the single-defect variant that reproduces the implementation up to and including it)."""
-    d = _first_diff(impl, models["repaired"])
-    if d is None:
+    """vlib calls this only when the whole implementation line equals a non-repaired variant (def_sa = HEAD).
+    Specific to the recorded schedule: a handlePeerLost parked between its two critical sections (pL) and, at the
+    first divergence, a node that the implementation shows in STANDBY_ALONE with a known peer."""
+    if impl != models.get("def_sa"):
         return None
-    i = d[0]
-    it = impl.split(" ")[:i + 1]
-    for k in ("hb", "if", "fc"):
-        if models.get("def_" + k, "").split(" ")[:i + 1] == it:
-            return SIG[k]
-    for k in ("hb_if", "hb_fc", "if_fc"):
-        if models.get("def_" + k, "").split(" ")[:i + 1] == it:
-            return "+".join(SIG[x] for x in k.split("_"))
-    return "+".join(SIG.values())
+    d = _first_diff(impl, models["repaired"])
+    if d is None or not any(o.startswith("pL") for o in case.split(" ")[10:]):
+        return None
+    nodes = d[1].split("|")[:2]
+    if any(n.split(",")[0] == "SA" and n.split(",")[4] == "1" for n in nodes if n.count(",") == 6):
+        return "standby-alone-known-peer-after-racing-peer-loss"
+    return None
 
 
 def shrink(case):
